@@ -29,7 +29,7 @@ var c02Vals = []sdk.ValAddress{
 func c02Claim(v int, nonce uint64, variant int) *types.MsgSendToPalomaClaim {
 	orch := sdk.AccAddress(c02Vals[v]).String()
 	return &types.MsgSendToPalomaClaim{
-		EventNonce:       nonce,
+		EventNonce:       nonce + 100, // the contract's event counter is independent of the bridge nonce
 		EthBlockHeight:   10,
 		TokenContract:    "0x1111111111111111111111111111111111111111",
 		Amount:           sdkmath.NewInt(int64(100 + variant)),
